@@ -58,6 +58,28 @@ Theorem C17_results_become_public_outputs : forall (p : Z) ls (r : regs) (s : @G
   let k := length (filter is_secret_int (map (rget r) ls)) in
   npub s' = npub s + Z.of_nat k /\ npriv s' = npriv s /\ length (cons_of cs) = k /\ guard s' = None.
 Proof. intros p. exact (res_pass_counts (p:=p)). Qed.
+(* the same for the fixed-point and the boolean result passes, and for the two argument passes: one public input per plain int leaf
+   (first pass) and per plain float leaf (second pass; F18: ints first, then floats), no constraint, no private variable *)
+Theorem C17_fixed_point_results_become_public_outputs : forall (p : Z) (c : cfg) ls (r : regs) (s : @Gadgets.gst p) r' s' cs, NoDup ls -> guard s = None ->
+  run (conv_pass (p:=p) res_fxp ls r) s = (inl r', s', cs) ->
+  let k := length (filter is_secret_fxp (map (rget r) ls)) in
+  npub s' = npub s + Z.of_nat k /\ npriv s' = npriv s /\ length (cons_of cs) = k /\ guard s' = None.
+Proof. intros p. exact (res_fxp_pass_counts (p:=p)). Qed.
+Theorem C17_boolean_results_become_public_outputs : forall (p : Z) (c : cfg) ls (r : regs) (s : @Gadgets.gst p) r' s' cs, NoDup ls -> guard s = None ->
+  run (conv_pass (p:=p) res_bool ls r) s = (inl r', s', cs) ->
+  let k := length (filter is_secret_bool (map (rget r) ls)) in
+  npub s' = npub s + Z.of_nat k /\ npriv s' = npriv s /\ length (cons_of cs) = k /\ guard s' = None.
+Proof. intros p. exact (res_bool_pass_counts (p:=p)). Qed.
+Theorem C17_int_arguments_become_public_inputs : forall (p : Z) ls (r : regs) (s : @Gadgets.gst p) r' s' cs, NoDup ls ->
+  run (conv_pass (p:=p) arg_int ls r) s = (inl r', s', cs) ->
+  let k := length (filter is_plain_int (map (rget r) ls)) in
+  npub s' = npub s + Z.of_nat k /\ npriv s' = npriv s /\ cons_of cs = [] /\ guard s' = guard s.
+Proof. intros p. exact (arg_int_pass_counts (p:=p)). Qed.
+Theorem C17_float_arguments_become_public_inputs : forall (p : Z) (c : cfg) ls (r : regs) (s : @Gadgets.gst p) r' s' cs, NoDup ls ->
+  run (conv_pass (p:=p) (arg_float c) ls r) s = (inl r', s', cs) ->
+  let k := length (filter is_plain_float (map (rget r) ls)) in
+  npub s' = npub s + Z.of_nat k /\ npriv s' = npriv s /\ cons_of cs = [] /\ guard s' = guard s.
+Proof. intros p. exact (arg_float_pass_counts (p:=p)). Qed.
 
 Example C17_example :
   let t := model_run (p:=65537) {| bitlength := 4%nat; resolution := 0 |}
@@ -69,3 +91,7 @@ Proof. vm_compute. repeat split; reflexivity. Qed.
 Print Assumptions C17_arguments_become_public_inputs_in_order.
 Print Assumptions C17_output_is_tied_to_its_wire.
 Print Assumptions C17_results_become_public_outputs.
+Print Assumptions C17_fixed_point_results_become_public_outputs.
+Print Assumptions C17_boolean_results_become_public_outputs.
+Print Assumptions C17_int_arguments_become_public_inputs.
+Print Assumptions C17_float_arguments_become_public_inputs.
